@@ -25,7 +25,7 @@ package carto
 //@ func (*Orthographic).Reverse
 //@   mode real
 //@   requires m.radius > 0
-//@   requires xy.X * fsin(fasin(fsqrt(xy.X*xy.X + xy.Y*xy.Y) / m.radius)) != 0 || fsqrt(xy.X*xy.X + xy.Y*xy.Y) * fcos(fasin(fsqrt(xy.X*xy.X + xy.Y*xy.Y) / m.radius)) * m.cosφ0 - xy.Y * fsin(fasin(fsqrt(xy.X*xy.X + xy.Y*xy.Y) / m.radius)) * m.sinφ0 != 0   // the point is not a pole (longitude undefined there)
+//@   requires (xy.X == 0 && xy.Y == 0) || xy.X * fsin(fasin(fsqrt(xy.X*xy.X + xy.Y*xy.Y) / m.radius)) != 0 || fsqrt(xy.X*xy.X + xy.Y*xy.Y) * fcos(fasin(fsqrt(xy.X*xy.X + xy.Y*xy.Y) / m.radius)) * m.cosφ0 - xy.Y * fsin(fasin(fsqrt(xy.X*xy.X + xy.Y*xy.Y) / m.radius)) * m.sinφ0 != 0   // the point is not a pole (longitude undefined there)
 //@ func (*Equirectangular).Reverse
 //@   mode real
 //@   requires e.radius > 0 && e.cosφ1 > 0
